@@ -1974,7 +1974,7 @@ fn main() {
     }
     // (ii) pairwise covering array over the tile-level axes, (iii) random points
     points.extend(covering_array(&axes, 2, &mut crng).into_iter().map(|p| Spec { point: p, invalid: None, sub: None, top: None, label: None }));
-    let nrandom = if thorough { 3400 } else { 110 };
+    let nrandom = if thorough { 3400 } else { 420 };
     for _ in 0..nrandom {
         let mut p: Vec<usize> = axes.iter().map(|&s| crng.usize(s)).collect();
         // nmcnk: 0 / 1 / 17 / 256 and (class 4) an arbitrary count 2..255; 256-chunk tiles are the expensive ones
